@@ -18,6 +18,7 @@ import (
 
 	frugal "github.com/Workiva/frugal/lib/go"
 	"github.com/apache/thrift/lib/go/thrift"
+	"github.com/nats-io/nats.go"
 	"verif/simrt"
 )
 
@@ -142,6 +143,8 @@ func muxHarness(rc *RunCtx) {
 	var blockedWrites int
 	var lastWritten *muxCall
 	natsSmallPayload := false
+	natsReconnect := false
+	var natsConn *nats.Conn
 	// inbox names with and without digits (the reply subject is <inbox>.<opid>)
 	inbox := []string{"_INBOX.cli", "_INBOX.a2Zk01", "client1"}[tp.Intn("cfg", 3)]
 	if kind == "adapter" {
@@ -270,6 +273,16 @@ func muxHarness(rc *RunCtx) {
 		tr = bld.Build()
 	} else {
 		b = NewSimBroker(rc)
+		if tp.Intn("natsreconn", 3) == 2 {
+			// the application's NATS connection rides out server restarts (nats.go's default): between servers its
+			// status is RECONNECTING and what is published waits in the client's buffer
+			natsReconnect = true
+			b.ConnOptions = append(b.ConnOptions, func(o *nats.Options) error {
+				o.AllowReconnect, o.MaxReconnect, o.ReconnectWait, o.NoRandomize = true, -1, 20*time.Millisecond, true
+				o.ReconnectJitter, o.ReconnectJitterTLS = 0, 0
+				return nil
+			})
+		}
 		if tp.Intn("cfg", 4) == 0 {
 			// a server whose max_payload is below frugal's own 1 MiB limit: publishing a larger request fails after it was registered
 			b.MaxPayload = 400
@@ -390,6 +403,7 @@ func muxHarness(rc *RunCtx) {
 				finished = true
 				return
 			}
+			natsConn = nc
 			tr = frugal.NewFNatsTransport(nc, "svc", inbox)
 		}
 		if err := tr.Open(); err != nil {
@@ -524,7 +538,28 @@ func muxHarness(rc *RunCtx) {
 				doCall(last)
 			}
 		}
+		if kind == "nats" && natsReconnect {
+			// the NATS server goes away while a call is under way (before, during or after its publish) and comes back
+			// some time later, before or after the call's deadline: whatever becomes of the request, the call is over by
+			// its deadline, and a response that does reach the client in time completes it
+			rc.Fault("nats-server-outage-during-a-call")
+			last := &muxCall{id: len(m.calls), caller: -1, tag: "outage", timeout: muxTimeouts[tp.Intn("outage", len(muxTimeouts))], plan: "outage", sendFault: "outage"}
+			m.calls = append(m.calls, last)
+			m.byTag[last.tag] = last
+			downAfter := last.timeout * time.Duration(tp.Intn("outage", 6)) / 10
+			upAfter := downAfter + last.timeout*time.Duration(1+tp.Intn("outage", 12))/10
+			t0 := s.Now()
+			s.AddEvent("env:nats-server-down", downAfter, func() { b.GoDown() })
+			s.AddEvent("env:nats-server-back", upAfter, func() { b.ComeBack() })
+			doCall(last)
+			if rest := t0 + upAfter + 300*time.Millisecond - s.Now(); rest > 0 {
+				settle(rest)
+			}
+		}
 		tr.Close()
+		if natsConn != nil && natsReconnect {
+			natsConn.Close()
+		}
 		finished = true
 	})
 
@@ -617,6 +652,17 @@ func (m *muxState) onRequest(frame []byte) {
 		return
 	}
 	if c.plan == "closed-under" {
+		return
+	}
+	if c.plan == "outage" {
+		// the responder answers what reaches it, at once or after a while, or not at all
+		switch k := tp.Intn("outage", 4); k {
+		case 0:
+		case 1:
+			respond("answer", c.opid, c.tag, 0, c)
+		default:
+			respond("answer", c.opid, c.tag, c.timeout*time.Duration(1+tp.Intn("outage", 9))/10, c)
+		}
 		return
 	}
 	// small random service delay, well inside any timeout
